@@ -16,7 +16,9 @@ import common
 
 SYNTAX = {'css': (': ', ';'), 'scss': (': ', ';'), 'sass': (': ', ''), 'less': (': ', ';'), 'stylus': (' ', '')}
 USER = {'pos': 'float:left|right', 'zzq': 'zoom:2|3', 'zzr': 'hello ${1:w} ${2}', 'c': 'cursor:help|move', 'ovh': 'overflow:hidden',
-        'mTq': 'margin-top:auto|0', 'Zq': 'z-index:1|2'}          # keys are matched without regard to letter case
+        'mTq': 'margin-top:auto|0', 'Zq': 'z-index:1|2',
+        # first alternative of several tokens / a function call with arguments
+        'zzs': 'a {\n${1}\n}', 'mxq': 'margin:0 auto|0', 'fnq': 'transform:rotate(10deg, 2) x|none', 'bdq': 'border:1px solid #f00|0'}          # keys are matched without regard to letter case
 FIELD = re.compile(r'\$\{(\d+)(?::([^}]*))?\}')
 
 
@@ -25,7 +27,9 @@ def _mark(index, placeholder, **kw):
 
 
 def _norm(s):
-    return ''.join(s.split())
+    """white space is compared: runs of it count as one blank, and none is required next to a bracket or comma of a function call"""
+    s = re.sub(r'\s+', ' ', s.strip())
+    return re.sub(r' ?([(),]) ?', r'\1', s)
 
 
 def _strip_fields(s):
@@ -87,7 +91,7 @@ def _chunk(items):
                         bad.append(('own-key', dict(case, expected=head + v['first'] + after, actual=got)))
                 else:
                     exp = _strip_fields(v['body'])
-                    if not v['quotedField'] and _norm(_strip_fields(got)) != _norm(exp):
+                    if not v['quotedField'] and _strip_fields(got) != exp:          # character for character, line breaks included
                         bad.append(('own-key (raw snippet)', dict(case, expected=exp, actual=got)))
                 # keywords typed in full after the key
                 if v['kind'] == 'prop' and re.fullmatch(r'[A-Za-z]+', key) and not marking:
